@@ -120,7 +120,7 @@ def check(ctx: Ctx) -> str:
     inner = [n_ for n_ in ast.walk(oc.node) if isinstance(n_, ast.FunctionDef) and n_ is not oc.node]
     ctx.need(len(inner) == 1, "optimizeconst wrapper not found")
     vis = [c for c in astq.calls(inner[0]) if astq.callee(c) == "self.optimizer.visit"]
-    ok = len(vis) == 1 and any("not frame.eval_ctx.volatile" in g and pol for g, pol in astq.guard_texts(inner[0], vis[0]))
+    ok = len(vis) == 1 and ("frame.eval_ctx.volatile", False) in astq.guard_atoms(inner[0], vis[0])
     ctx.check(ok, "optimizeconst", "compiler:optimizeconst", "volatile guard", "optimizeconst must not run the optimizer for volatile frames", oc.loc())
     deco = [name for name, fn in repo.cls("compiler:CodeGenerator").methods.items() if any(ast.unparse(d) == "optimizeconst" for d in fn.decorator_list)]
     ctx.floor("@optimizeconst visitors", len(deco), 8)
